@@ -26,6 +26,9 @@ pub struct Report {
     pub violation_counts: BTreeMap<String, u64>,
     pub inconclusive: u64,
     pub notes: Vec<String>,
+    /// include the distinct-case hashes in the JSON (child processes whose
+    /// reports are merged by a parent)
+    pub export_hashes: bool,
 }
 
 pub const MAX_SAMPLES: usize = 5;
@@ -122,7 +125,13 @@ impl Report {
     }
 
     pub fn to_json(&self) -> Value {
+        let hashes: Vec<u64> = if self.export_hashes {
+            self.distinct.iter().copied().collect()
+        } else {
+            vec![]
+        };
         json!({
+            "distinct_hashes": hashes,
             "evaluations": self.evaluations,
             "distinct_nontrivial": self.distinct.len(),
             "counters": self.counters,
